@@ -12,21 +12,26 @@ Definition point := (Qc * nat * list (list Qc) * list Qc * list Qc)%type.
 
 Definition qsum (l : list Qc) : Qc := fold_left Qcplus l 0.
 
+(* The comparison of the implementation with the exact model of the kernels.  That the
+   model equals the Cox-de Boor reference is a theorem (Props.active_derivs_eq_spec,
+   single_ev_eq_spec, N_local, N_partition_of_unity, dN_sum_zero); it is additionally
+   re-evaluated here for degrees <= 3 only (the plain recursion is exponential in p). *)
 Definition check_point (kv : list Qc) (p nd : nat) (pt : point) : bool :=
   let '(u, span, impl, bounds, sev) := pt in
   let s := findspan kv p u in
   let model := active_deriv kv p u nd in
+  let withref := (p <=? 3)%nat in
   Nat.eqb s span
   && forallb (fun k =>
        forallb (fun r =>
           close (nth k bounds 0) (nth r (nth k impl []) 0) (nth r (nth k model []) 0)
-          && qeqb (nth r (nth k model []) 0) (dNref kv k p (s - p + r) u))
+          && (negb withref || qeqb (nth r (nth k model []) 0) (dNref kv k p (s - p + r) u)))
         (seq 0 (S p)))
      (seq 0 (S nd))
   && forallb (fun i =>
-        close (nth 0 bounds 0 + nth 0 bounds 0) (nth i sev 0) (Nref kv p i u)
-        && qeqb (single_ev kv p i u) (Nref kv p i u)
-        && (((s - p <=? i)%nat && (i <=? s)%nat) || qeqb (Nref kv p i u) 0))
+        close (nth 0 bounds 0 + nth 0 bounds 0) (nth i sev 0) (single_ev kv p i u)
+        && (negb withref || qeqb (single_ev kv p i u) (Nref kv p i u))
+        && (((s - p <=? i)%nat && (i <=? s)%nat) || qeqb (single_ev kv p i u) 0))
      (seq 0 (numdofs kv p))
   && qeqb (qsum (nth 0 model [])) 1
   && forallb (fun k => qeqb (qsum (nth k model [])) 0) (seq 1 nd).
